@@ -864,6 +864,8 @@ def gen_groups(tier, seed):
             n = int(rng.randint(6, 12 if quick else 20))
             d = int(rng.randint(1, 4))
             X = rng.normal(size=(n, d))
+            if (t // 4) % 2 == 1:
+                X = rng.randint(0, 3, size=(n, d)).astype(float)       # lattice points: many tied distances
             thr = [{"threshold": 1.0}, {"recurrence_rate": 0.3}, {"local_recurrence_rate": 0.3},
                    {"recurrence_rate": 0.7}][variant]
             inp = {"cls": "RecurrenceNetwork", "series": X.tolist(),
